@@ -113,6 +113,11 @@ Theorem C14_at_most_one_handler : forall b32 bs pass inp out log r inp' out' log
 Proof. exact dispatch_at_most_one_handler. Qed.
 Print Assumptions C14_at_most_one_handler.
 
+Theorem C14_handlers_bounded : forall b32 bs pass n inp out log,
+  exists l, snd (res_state (serve b32 bs pass n (inp, out, log))) = log ++ l /\ (length l <= n)%nat.
+Proof. exact serve_handlers_bounded. Qed.
+Print Assumptions C14_handlers_bounded.
+
 (* non-vacuity: two bindings, a call of the second, then an unbound selector *)
 Example C14_nonvacuous :
   let i32 := TScalar 0 (SInt I32) in
